@@ -949,6 +949,12 @@ void Adaptation::Icap::ModXact::prepEchoing()
 {
     disableRepeats("preparing to echo content");
     disableBypass("preparing to echo content", true);
+
+    // Without a backup we cannot echo a virgin body whose prefix was consumed already. Planning that echo anyway
+    // only moves the failure into echoMore() and then into swanSong(), where virginConsume() throws outside
+    // of the job call protection and kills the process.
+    Must(!virgin.header->body_pipe || virginBodySending.active() || !virginConsumed);
+
     setOutcome(xoEcho);
 
     // We want to clone the HTTP message, but we do not want
